@@ -225,10 +225,12 @@ CHECKS = {
             'model denotes exactly the nodes and edges of the mathematical graph and raises exactly the prescribed '
             'exceptions (history_refines, history_errors, via addNode/addDep/removeDep/removeNode_refines and the '
             'representation invariant GInv); every RList operation preserves the index invariant (rlist_*_inv, '
-            'rlist_getIndex_spec); dependencies() reads the abstraction (dependencies_spec). merge, copy, invert, +, '
-            'graft, flatten, topological_sort, transitive reduction/closure, dependees, initial/terminal, <=, == are in '
-            'the executable model and checked against DepGraph and against the set-level oracle on every run, but their '
-            'theorems are not proved yet (history_refines is the partial form of the first sentence).',
+            'rlist_getIndex_spec); dependencies() reads the abstraction (dependencies_spec); multi_history_refines: the '
+            'same for histories over any number of graphs with copies, in-place merges and sums (copy_refines, '
+            'merge_refines, items_spec), which also gives the independence of copies and derived graphs (the '
+            'specification of a graph only changes with its own calls). invert, graft, flatten, topological_sort, '
+            'transitive reduction/closure, dependees, initial/terminal, <=, == are in the executable model and checked '
+            'against DepGraph and against the set-level oracle on every run, but their theorems are not proved yet.',
             'Trusted: Lean kernel + standard axioms; correspondence sampled (exhaustive <= 4 nodes in thorough); node '
             'identity = Python id(); topological order compared for validity, not equality; graft/flatten only on '
             'acyclic expansions; c16_pinned_refuted keeps the pinned graft (A19) refuted.',
